@@ -128,7 +128,7 @@ func (e *peerEnc) field(dst []byte, p *prng, f kv) []byte {
 
 // avoidF01 keeps the peer from emitting literals whose value-length octet equals
 // their first octet (known decoder defect F01) in scripts that are not about it.
-var avoidF01 = true
+var avoidF01 = false
 
 // isF01 reports whether a literal representation has a value-length octet equal
 // to its first octet.
@@ -244,7 +244,7 @@ func (e *peerEnc) block(p *prng, fs []kv) []byte {
 
 // avoidF48 keeps header-block cuts away from the octet after a literal-name
 // representation octet (known decoder defect: the block is then rejected).
-var avoidF48 = true
+var avoidF48 = false
 
 func (e *peerEnc) badCut(block []byte, c int) bool {
 	if !avoidF48 {
